@@ -31,6 +31,16 @@ using namespace vrt;
 extern "C" const char* __lsan_default_suppressions() { return "leak:vrt::hook_thread\n"; }
 #endif
 
+#if VRT_TSAN
+// libtbbmalloc.so calls mremap through its PLT and finds this definition first (see vrt::tsan_mremap for the reason).
+static std::atomic<long> g_mremap_emulated{0};
+extern "C" __attribute__((visibility("default"))) void* mremap(void* a, size_t ol, size_t nl, int fl, ...) {
+    if (fl & MREMAP_FIXED) { errno = EINVAL; return MAP_FAILED; }   // tbbmalloc never asks for it
+    g_mremap_emulated.fetch_add(1, std::memory_order_relaxed);
+    return vrt::tsan_mremap(a, ol, nl, fl);
+}
+#endif
+
 // ------------------------------------------------------------------------------------------------ configuration
 static bool g_monitor = true;          // shadow map on
 static bool g_light = false;           // tsan: no monitor locks, no peer sampling
@@ -743,6 +753,9 @@ int main(int argc, char** argv) {
     if (self_check_fail || (g_shadow_missing.load() && g_viol.load() == 0)) { fprintf(stderr, "[c17] monitor self-check failed: %ld rounds, %ld missing pieces\n", self_check_fail, g_shadow_missing.load()); R.stat("monitor_self_check_failed", self_check_fail + g_shadow_missing.load()); }
     R.stat("ops", total.ops); R.stat("allocs", total.allocs); R.stat("frees", total.frees); R.stat("foreign_frees", total.foreign_frees); R.stat("frees_after_owner_thread_exit", total.frees_after_exit);
     R.stat("reallocs", total.reallocs); R.stat("realloc_inplace", total.realloc_inplace); R.stat("realloc_moved", total.realloc_moved); R.stat("foreign_reallocs_moved", total.foreign_reallocs);
+#if VRT_TSAN
+    R.stat("tsan_mremap_emulated", g_mremap_emulated.load());
+#endif
     R.stat("handoffs", total.handoffs); R.stat("received", total.received); R.stat("cleanup_commands", total.cmds); R.stat("sweeps", total.sweeps); R.stat("blocks_swept", total.swept);
     R.stat("short_lived_threads", total.spawns); R.stat("blocks_left_by_exited_threads", total.left_by_exited); R.stat("extreme_calls", total.extreme); R.stat("invalid_alignment_calls", total.invalid_args);
     R.stat("null_results", total.nulls); R.stat("unexpected_null", total.unexpected_null); R.stat("reuse_after_foreign_free_by_owner", total.reuse_by_owner); R.stat("reuse_after_foreign_free_by_third", total.reuse_by_third);
